@@ -87,20 +87,31 @@ package contentstream
 //@     invariant forall k int :: {p.data[k]} entry(p.pos) <= k && k < p.pos ==> octDigit(p.data[k])
 //@     invariant octalVal == octFold(p.data, entry(p.pos) - 1, i + 1) && octalVal >= 0
 
+// ISO 32000-1 7.3.4.3 hexadecimal strings: white space is ignored, each pair of hex digits is one byte
 //@ func (*Parser) parseHexString results (obj, err)
-//@   property C02
+//@   property C02, C06
 //@   requires pinv(p) && p.pos < len(p.data)
 //@   ensures pinv(p) && psame(p, old(p)) && p.pos >= old(p.pos) && (!err ==> p.pos > old(p.pos))
 //@   loop 0:
 //@     invariant pinv(p) && psame(p, old(p)) && p.pos > old(p.pos)
+//@     step white_space_ignored: pdfWS(p.data[prev(p.pos)]) ==> p.pos == prev(p.pos) + 1 && len(result) == prev(len(result))
+//@     step digit_pair: !pdfWS(p.data[prev(p.pos)]) ==> pdfHexDigit(p.data[prev(p.pos)]) && pdfHexDigit(p.data[p.pos-1]) && p.pos >= prev(p.pos) + 2 && (forall k int :: {p.data[k]} prev(p.pos) < k && k < p.pos - 1 ==> pdfWS(p.data[k])) && len(result) == prev(len(result)) + 1 && result[prev(len(result))] == 16 * pdfHexVal(p.data[prev(p.pos)]) + pdfHexVal(p.data[p.pos-1])
+//@     step earlier_output_kept: forall k int :: {result[k]} 0 <= k && k < prev(len(result)) ==> result[k] == prev(result)[k]
 //@     decreases len(p.data) - p.pos
 
+// ISO 32000-1 7.3.5 names: #xx (two hex digits) is the byte xx; a name ends at white space or a delimiter
+//@ spec func nameEsc(data []byte, p int) bool = data[p] == '#' && p + 2 < len(data) && pdfHexDigit(data[p+1]) && pdfHexDigit(data[p+2])
 //@ func (*Parser) parseName results (obj, err)
-//@   property C02
+//@   property C02, C06
 //@   requires pinv(p) && p.pos < len(p.data)
 //@   ensures pinv(p) && psame(p, old(p)) && p.pos >= old(p.pos) && (!err ==> p.pos > old(p.pos))
+//@   ensures ends_at_terminator: !err && p.pos < len(p.data) ==> pdfWS(p.data[p.pos]) || pdfDelim(p.data[p.pos])
 //@   loop 0:
 //@     invariant pinv(p) && psame(p, old(p)) && p.pos > old(p.pos)
+//@     step regular_byte_kept: !pdfWS(p.data[prev(p.pos)]) && !pdfDelim(p.data[prev(p.pos)])
+//@     step next_element: p.pos == prev(p.pos) + (nameEsc(p.data, prev(p.pos)) ? 3 : 1)
+//@     step emitted: len(result) == prev(len(result)) + 1 && result[prev(len(result))] == (nameEsc(p.data, prev(p.pos)) ? 16 * pdfHexVal(p.data[prev(p.pos)+1]) + pdfHexVal(p.data[prev(p.pos)+2]) : p.data[prev(p.pos)])
+//@     step earlier_output_kept: forall k int :: {result[k]} 0 <= k && k < prev(len(result)) ==> result[k] == prev(result)[k]
 //@     decreases len(p.data) - p.pos
 
 // operand parsing is mutually recursive; measure = (bytes left, rank)
